@@ -17,6 +17,7 @@ C  seeded random histories larger than the exhaustive bounds (deeper trees, long
 import collections
 import json
 import os
+import time
 
 from harness import tlc, graph, tlaval
 from harness import schemakit as K
@@ -87,7 +88,10 @@ def tlc_jobs_start(ctx, jobs, par):
         wit = 'names' in x
         tlc.write_cfg(cfgp, constants=c, invariants=list(x.get('invs', ())) + (['WCollect'] if wit else []),
                       properties=x.get('props', ()), view=x.get('view'), postcondition='WPost' if wit else None)
-        return tlc.run('SchemaTreeMC', cfgp, workers=1 if wit else x.get('workers', 4), heavy=not wit, timeout=2400, tag='x02a%d' % i)
+        t0 = time.monotonic()      # (time.time is the virtual clock while a schemakit.Run is open in the main thread)
+        r = tlc.run('SchemaTreeMC', cfgp, workers=1 if wit else x.get('workers', 4), heavy=not wit, timeout=2400, tag='x02a%d' % i)
+        r.wall = time.monotonic() - t0
+        return r
     ex = ThreadPoolExecutor(max_workers=par)
     return ex, [ex.submit(one, i, j) for i, j in enumerate(jobs)]
 
@@ -396,7 +400,6 @@ def nontrivial(calls):
 
 
 def stage_b(ctx, recs):
-    import time
     from concurrent.futures import ThreadPoolExecutor
     q = Queries(ctx.rng)
     graphs = []
@@ -415,15 +418,15 @@ def stage_b(ctx, recs):
         graphs.append(('P pipelines, tree %d' % (i + 1), pipe_consts(trees, names, ctx.pick(1, 2), QueryOn='FALSE'), 0.1))
     graphs.append(('S segmented / local', pipe_consts('S_Trees', 'S_QNames', ctx.pick(1, 2), QueryOn='FALSE', seg='S_Contents',
                                                       contents='{"x"}', net='S_Net', ExtComps='<- None', AppParams='<- None'), 0.1))
-    t0 = time.time()
+    t0 = time.monotonic()
     with ThreadPoolExecutor(max_workers=ctx.pick(6, 4)) as ex:
         futs = [ex.submit(dump, cfg('x02-B-%d' % n, consts, ['TypeOK']), ctx.pick(2, 4), 'x02b%d' % n) for n, (label, consts, pq) in enumerate(graphs)]
         dumped = [f.result() for f in futs]
     if os.environ.get('X02_TIMING'):
-        print('   B: %d graphs dumped in %.1fs' % (len(graphs), time.time() - t0), flush=True)
+        print('   B: %d graphs dumped in %.1fs' % (len(graphs), time.monotonic() - t0), flush=True)
     brecs = []
     for (label, consts, pq), g in zip(graphs, dumped):
-        t1 = time.time()
+        t1 = time.monotonic()
         ctx.add_tlc('SchemaTree graph %s (%d states, %d edges)' % (label, len(g.state), g.n_edges), g.tlc)
         paths, left = state_cover_paths(g, 40, ctx.rng, max_paths=ctx.pick(None, 12000))
         if left:
@@ -442,7 +445,7 @@ def stage_b(ctx, recs):
         ctx.sample({'kind': 'B-path', 'graph': label, 'calls': [to_json_call(g.state[d]['call']) for d in paths[-1][1][:8]]}, limit=3)
         ctx.note('B %s: %d states, %d edges, %d paths, %d actions replayed' % (label, len(g.state), g.n_edges, len(paths), steps))
         if os.environ.get('X02_TIMING'):
-            print('   B %s: TLC %.1fs replay %.1fs' % (label, g.tlc.wall, time.time() - t1), flush=True)
+            print('   B %s: TLC %.1fs replay %.1fs' % (label, g.tlc.wall, time.monotonic() - t1), flush=True)
     # the paths were compared with the TLC states directly; the trace judge is needed for the query calls sprinkled over them
     withq = [r for r in brecs if any(e['call'][0].startswith('Q') for e in r['ev'])]
     ctx.rng.shuffle(withq)
